@@ -48,7 +48,7 @@ CALLBACKS = ["core_first", "core_mid", "core_last", "blk_first", "blk_para", "in
 
 def floors(tier):
     q = tier == "quick"
-    f = {"crash_points.fresh": 5000 if q else 150000, "crash_points.sequence": 3000 if q else 100000, "raised_inside_library": 8000, "fault.silent_invocation": 300,
+    f = {"crash_points.fresh": 5000 if q else 60000, "crash_points.sequence": 3000 if q else 20000, "raised_inside_library": 8000, "fault.silent_invocation": 300,
          "fault.in_container": 300, "fault.in_skiptoken": 100, "reset_rules.paths": 2000, "hammer.sequences": 100, "reset_rules.nested": 500, "reset_rules.entry_with_empty_chain": 500, "reset_rules.exception_propagated": 1000, "post_state_compared": 8000}
     for c in CALLBACKS:
         f["cb." + c] = 50
